@@ -299,7 +299,7 @@ for val in spec["valuations"]:
                        inner=mod.Inner(q=11, w=1), mp={"a": 1, "b": 2}, f=1.5, i=7, k=40, two=2.0,
                        opt=conv("opt", val["opt"]), un=conv("un", val["un"]), nun=conv("nun", val["nun"]),
                        fa=np.array([[1, 2, 3], [4, 5, 6]], dtype=np.int32), fv=[7, 8, 9], da=np.array([[1, 2], [3, 4]], dtype=np.int32),
-                       tr=np.arange(1, 21, dtype=np.int32).reshape(4, 5), nx="x", ga=mod.Gen(x=11), gb=mod.Gen(x=2.5)))
+                       tr=np.arange(1, 21, dtype=np.int32).reshape(4, 5), nx="x", ga=mod.Gen(x=11), gb=mod.Gen(x=2.5), cnt=300, sm=20000, cv=[300, 250]))
 out = []
 for j, o in enumerate(objs):
     row = {}
@@ -349,10 +349,10 @@ def second_family(c, sc, yardl, home):
     open(os.path.join(mdir, "_package.yml"), "w").write(
         "namespace: Cg\ncpp:\n  sourcesOutputDir: ../cpp\n  generateHDF5: false\n  generateCMakeLists: false\n  generateNDJson: false\n"
         "  overrideArrayHeader: yardl_shim_ndarray.h\npython:\n  outputDir: ../py\n  generateNDJson: false\nmatlab:\n  outputDir: ../matlab\n")
-    lines = ["Gen<T>: !record", "  fields:", "    x: T", "  computedFields:", "    val: x", "    again: val",
+    lines = ["Count: uint16", "Small: int16", "Gen<T>: !record", "  fields:", "    x: T", "  computedFields:", "    val: x", "    again: val",
              "Inner: !record", "  fields:", "    q: int", "    w: int", "R2: !record", "  fields:", "    arr: int[x, y]", "    vec: int*", "    vv: int**",
              "    ni: int", "    ns: string", "    inner: Inner", "    mp: string->int", "    f: float", "    i: int", "    k: long", "    two: float",
-             "    opt: int?", "    un: [int, float]", "    nun: [null, int, float]", "    fa: int[x:2, y:3]", "    fv: int*3", "    da: int[]", "    tr: int[y, x]", "    nx: string", "    ga: Gen<int>", "    gb: Gen<double>", "  computedFields:"]
+             "    opt: int?", "    un: [int, float]", "    nun: [null, int, float]", "    fa: int[x:2, y:3]", "    fv: int*3", "    da: int[]", "    tr: int[y, x]", "    nx: string", "    ga: Gen<int>", "    gb: Gen<double>", "    cnt: Count", "    sm: Small", "    cv: Count*", "  computedFields:"]
     for n, x in enumerate(cases):
         x["id"] = "d%d" % n
         x["text"] = "\n".join(field_yaml(x["id"], x["e"]))
